@@ -58,6 +58,8 @@ def run(pid, tier, replay_file=None):
     checked = 0
     nontrivial = set()
 
+    stats_sub = [0, 0]     # subclass results: differing from the parent's (adjudicated), same
+
     def add_event(si, tag, text):
         eid = len(ev_index) + 1
         ev_index[eid] = (si, tag)
@@ -136,6 +138,14 @@ def run(pid, tier, replay_file=None):
                 elif o["kind"] == "ok":
                     add_event(si, vi, '[id |-> @ID@, p |-> "C04", doc |-> %s, v |-> %s, kind |-> "ok", out |-> %s]'
                               % (doc_tla(), tlajson_to_tla(tagged_values[vi]), _out(o)))
+                # the same class through a subclass that adds nothing
+                so = ob["sub_calls"][vi] if ob.get("sub_calls") else None
+                if so is not None and so["kind"] == "ok" and not (o["kind"] == "ok" and codec.norm_real(so["out"]) == codec.norm_real(o["out"])):
+                    stats_sub[0] += 1
+                    add_event(si, ("sub", vi), '[id |-> @ID@, p |-> "C04", doc |-> %s, v |-> %s, kind |-> "ok", out |-> %s]'
+                              % (doc_tla(), tlajson_to_tla(tagged_values[vi]), _out(so)))
+                elif so is not None:
+                    stats_sub[1] += 1
             elif pid == "C05":
                 if not st.get("dobs"):
                     continue
@@ -258,7 +268,13 @@ def run(pid, tier, replay_file=None):
                               f"{json.dumps(pyvals[tag])[:80]}", dict(schema=d, value_index=tag))
                 continue
             st, ob = states[si], observations[si]
-            if isinstance(tag, int):
+            if isinstance(tag, tuple) and tag[0] == "sub":
+                o = ob["sub_calls"][tag[1]]
+                rep.violation((pid + "-subclass", _kwsig(st["doc"])),
+                              f"observation rejected by R_{pid}: a subclass adding nothing to the class parsed from "
+                              f"{json.dumps(codec.schema_to_json(st['doc']))[:160]} builds from "
+                              f"{json.dumps(pyvals[tag[1]])[:80]}: {_short(o)}", _payload(st, tag[1], o))
+            elif isinstance(tag, int):
                 o = ob["calls"][tag]
                 rep.violation((pid + "-drift", _kwsig(st["doc"])),
                               f"observation rejected by R_{pid}: schema "
@@ -331,7 +347,8 @@ def run(pid, tier, replay_file=None):
         bfs_exhaustive_within_bound=True,
         tlc=dict(bfs=bfs, seeds=seed, sim=sim, trace_validation=adj),
         action_witnesses=witnesses,
-        drift=dict(drift), independent_random_documents=rand_info, reference_crosscheck=xref,
+        drift=dict(drift), subclass_results=dict(adjudicated=stats_sub[0], same_as_parent=stats_sub[1]),
+        independent_random_documents=rand_info, reference_crosscheck=xref,
         numeric_extremes=ext01,
         drift_events_adjudicated=min(len(ev_index), MAX_EVENTS),
         drift_events_total=len(ev_index),
